@@ -61,18 +61,56 @@ pub fn generate(tier: Tier, rng: &mut Rng, sink: &mut dyn FnMut(Case)) {
         next_id: 1,
         sink,
     };
-    gen_exh3(&mut g);
-    gen_exh4(&mut g, tier);
-    gen_exh2ops(&mut g, tier);
-    gen_rand(&mut g, tier);
-    gen_rank(&mut g, tier);
-    gen_layered(&mut g, tier);
-    gen_wide(&mut g);
-    gen_bigconf(&mut g, tier);
-    gen_manytypes(&mut g, tier);
-    gen_timed(&mut g, tier);
-    gen_malformed(&mut g, tier);
-    gen_pair(&mut g, tier);
+    // a panic while generating one family (the generators run the library to choose events)
+    // must not lose the other families
+    if std::panic::catch_unwind(std::panic::AssertUnwindSafe(|| gen_exh3(&mut g))).is_err() {
+        crate::GEN_PANICKED.store(true, std::sync::atomic::Ordering::SeqCst);
+        eprintln!("generator family gen_exh3 panicked");
+    }
+    if std::panic::catch_unwind(std::panic::AssertUnwindSafe(|| gen_exh4(&mut g, tier))).is_err() {
+        crate::GEN_PANICKED.store(true, std::sync::atomic::Ordering::SeqCst);
+        eprintln!("generator family gen_exh4 panicked");
+    }
+    if std::panic::catch_unwind(std::panic::AssertUnwindSafe(|| gen_exh2ops(&mut g, tier))).is_err() {
+        crate::GEN_PANICKED.store(true, std::sync::atomic::Ordering::SeqCst);
+        eprintln!("generator family gen_exh2ops panicked");
+    }
+    if std::panic::catch_unwind(std::panic::AssertUnwindSafe(|| gen_rand(&mut g, tier))).is_err() {
+        crate::GEN_PANICKED.store(true, std::sync::atomic::Ordering::SeqCst);
+        eprintln!("generator family gen_rand panicked");
+    }
+    if std::panic::catch_unwind(std::panic::AssertUnwindSafe(|| gen_rank(&mut g, tier))).is_err() {
+        crate::GEN_PANICKED.store(true, std::sync::atomic::Ordering::SeqCst);
+        eprintln!("generator family gen_rank panicked");
+    }
+    if std::panic::catch_unwind(std::panic::AssertUnwindSafe(|| gen_layered(&mut g, tier))).is_err() {
+        crate::GEN_PANICKED.store(true, std::sync::atomic::Ordering::SeqCst);
+        eprintln!("generator family gen_layered panicked");
+    }
+    if std::panic::catch_unwind(std::panic::AssertUnwindSafe(|| gen_wide(&mut g))).is_err() {
+        crate::GEN_PANICKED.store(true, std::sync::atomic::Ordering::SeqCst);
+        eprintln!("generator family gen_wide panicked");
+    }
+    if std::panic::catch_unwind(std::panic::AssertUnwindSafe(|| gen_bigconf(&mut g, tier))).is_err() {
+        crate::GEN_PANICKED.store(true, std::sync::atomic::Ordering::SeqCst);
+        eprintln!("generator family gen_bigconf panicked");
+    }
+    if std::panic::catch_unwind(std::panic::AssertUnwindSafe(|| gen_manytypes(&mut g, tier))).is_err() {
+        crate::GEN_PANICKED.store(true, std::sync::atomic::Ordering::SeqCst);
+        eprintln!("generator family gen_manytypes panicked");
+    }
+    if std::panic::catch_unwind(std::panic::AssertUnwindSafe(|| gen_timed(&mut g, tier))).is_err() {
+        crate::GEN_PANICKED.store(true, std::sync::atomic::Ordering::SeqCst);
+        eprintln!("generator family gen_timed panicked");
+    }
+    if std::panic::catch_unwind(std::panic::AssertUnwindSafe(|| gen_malformed(&mut g, tier))).is_err() {
+        crate::GEN_PANICKED.store(true, std::sync::atomic::Ordering::SeqCst);
+        eprintln!("generator family gen_malformed panicked");
+    }
+    if std::panic::catch_unwind(std::panic::AssertUnwindSafe(|| gen_pair(&mut g, tier))).is_err() {
+        crate::GEN_PANICKED.store(true, std::sync::atomic::Ordering::SeqCst);
+        eprintln!("generator family gen_pair panicked");
+    }
 }
 
 // ---------------------------------------------------------------------------------------------
